@@ -241,7 +241,22 @@ func isBlockedStatus(s string) bool {
 	return false
 }
 
+var lockPrimitives = [][]byte{[]byte("runtime.gopark"), []byte("runtime.semacquire"), []byte("runtime.goparkunlock"),
+	[]byte("internal/sync.runtime_Semacquire"), []byte("sync.runtime_Semacquire"), []byte("internal/sync.(*Mutex)"),
+	[]byte("sync.(*Mutex)"), []byte("sync.(*RWMutex)"), []byte("internal/sync.(*RWMutex)"), []byte("internal/sync.runtime_"), []byte("sync.runtime_")}
+
+func isLockPrimitive(frame []byte) bool {
+	for _, p := range lockPrimitives {
+		if bytes.HasPrefix(frame, p) {
+			return true
+		}
+	}
+	return false
+}
+
 var stackBuf = make([]byte, 1<<20)
+
+var elDebug = os.Getenv("VERIF_ELDEBUG") != ""
 
 const maxSteps = 1500
 
@@ -259,27 +274,55 @@ func (r *run) settle() (parked []*gstate, allDone bool) {
 			n = runtime.Stack(stackBuf, true)
 		}
 		status := map[int64]string{}
+		frames := map[int64]string{}
+		var dbg []string
 		idx := statusRe.FindAllSubmatchIndex(stackBuf[:n], -1)
 		for k, m := range idx {
 			id, _ := strconv.ParseInt(string(stackBuf[m[2]:m[3]]), 10, 64)
 			st := string(stackBuf[m[4]:m[5]])
-			// A goroutine that waits for a mutex may be waiting for the harness's own lock (inside the hook, on
-			// its way to its next yield point): that one is running, not blocked by the code under test.
-			if base := strings.SplitN(st, ",", 2)[0]; base == "sync.Mutex.Lock" || base == "semacquire" {
+			if elDebug {
 				end := n
 				if k+1 < len(idx) {
 					end = idx[k+1][0]
 				}
-				// the function that asked for the lock: the first frame that is not runtime / sync / internal
+				var fs []string
+				for _, ln := range bytes.Split(stackBuf[m[0]:end], []byte("\n"))[1:] {
+					if len(ln) > 0 && ln[0] != '\t' && len(fs) < 8 {
+						fs = append(fs, string(ln))
+					}
+				}
+				frames[id] = strings.Join(fs, " < ")
+			}
+			// A goroutine that waits for a mutex or semaphore may be waiting for the harness's own lock (inside the
+			// hook, on its way to its next yield point) or for a semaphore of the Go runtime itself (gcStart and
+			// stopTheWorld take worldsema/gcsema with a plain semacquire, and this very dump stops the world):
+			// such a goroutine is running, not blocked by the code under test.
+			if base := strings.SplitN(st, ",", 2)[0]; base == "sync.Mutex.Lock" || base == "semacquire" || base == "sync.RWMutex.Lock" || base == "sync.RWMutex.RLock" {
+				end := n
+				if k+1 < len(idx) {
+					end = idx[k+1][0]
+				}
+				// the function that asked for the lock: the first frame that is not a parking / locking primitive
+				sawPrimitive := false
 				for _, ln := range bytes.Split(stackBuf[m[0]:end], []byte("\n"))[1:] {
 					if len(ln) == 0 || ln[0] == '\t' {
 						continue // file:line
 					}
-					if bytes.HasPrefix(ln, []byte("sync.")) || bytes.HasPrefix(ln, []byte("runtime.")) || bytes.HasPrefix(ln, []byte("internal/")) {
+					if isLockPrimitive(ln) {
+						sawPrimitive = true
 						continue
+					}
+					if base == "semacquire" && !sawPrimitive {
+						// parked by the runtime itself (frames of package runtime are elided from the dump): a
+						// goroutine that starts a GC cycle or stops the world waits for gcsema/worldsema while
+						// this dump holds the world stopped
+						st = "running (runtime-internal semaphore)"
+						break
 					}
 					if bytes.HasPrefix(ln, []byte("main.")) {
 						st = "running (harness lock)"
+					} else if bytes.HasPrefix(ln, []byte("runtime.")) || bytes.HasPrefix(ln, []byte("internal/")) {
+						st = "running (runtime-internal semaphore)"
 					}
 					break
 				}
@@ -311,10 +354,15 @@ func (r *run) settle() (parked []*gstate, allDone bool) {
 			}
 			if !isBlockedStatus(st) {
 				busy = true
+			} else if elDebug {
+				dbg = append(dbg, fmt.Sprintf("%s=[%s] %s", g.role, st, frames[id]))
 			}
 		}
 		r.mu.Unlock()
 		if !busy {
+			if elDebug && len(dbg) > 0 {
+				fmt.Fprintf(os.Stderr, "SETTLED @%d with blocked: %s\n", r.us(), strings.Join(dbg, " ;; "))
+			}
 			return parked, live == 0
 		}
 		if time.Now().After(deadline) {
